@@ -187,7 +187,7 @@ Lemma process_unfold f c e : process f c e =
   let c1 := ens c in
   if (e_kind e =? 3) || negb (outer_opens (kc c1) (e_state e)) then (record_failure c1 (e_id e) true None, RErr) else
   if wrong_epoch (kc c1) e then
-    if is_better c1 (e_epoch e) (e_ts e) (e_key e) then
+    if is_commit_kind e && is_better c1 (e_epoch e) (e_ts e) (e_key e) then
       match find_snap (e_epoch e) (queue c1), f with
       | Some s, S f' => process f' (rollback c1 (e_epoch e) s) e
       | _, _ => fail_unprocessable c1 e (k_rec_epoch (kc c))
@@ -362,7 +362,7 @@ Proof.
   all: cbv zeta; pose proof (Inv_ens c H) as H1.
   all: destruct ((e_kind e =? 3) || negb (outer_opens (kc (ens c)) (e_state e))); [exact H1|].
   all: destruct (wrong_epoch (kc (ens c)) e); [|apply Inv_here; exact H1].
-  all: destruct (is_better (ens c) (e_epoch e) (e_ts e) (e_key e)); [|apply Inv_late; exact H1].
+  all: destruct (is_commit_kind e && is_better (ens c) (e_epoch e) (e_ts e) (e_key e)); [|apply Inv_late; exact H1].
   all: destruct (find_snap (e_epoch e) (queue (ens c))) as [s|] eqn:Es; [|exact H1].
   - exact H1.
   - apply IH. apply Inv_rollback; [exact H1|]. apply find_snap_In in Es. apply Es.
@@ -459,7 +459,7 @@ Proof.
   all: cbv zeta.
   all: destruct ((e_kind e =? 3) || negb (outer_opens (kc (ens c)) (e_state e))); [cbn [fst record_failure set_dedup rollbacks ens set_core]; lia|].
   all: destruct (wrong_epoch (kc (ens c)) e); [|rewrite rb_here; cbn [ens set_core rollbacks]; lia].
-  all: destruct (is_better (ens c) (e_epoch e) (e_ts e) (e_key e)); [|rewrite rb_late; cbn [ens set_core rollbacks]; lia].
+  all: destruct (is_commit_kind e && is_better (ens c) (e_epoch e) (e_ts e) (e_key e)); [|rewrite rb_late; cbn [ens set_core rollbacks]; lia].
   all: destruct (find_snap (e_epoch e) (queue (ens c))) as [s|] eqn:Es; [|cbn [fst fail_unprocessable record_failure set_dedup rollbacks ens set_core]; lia].
   - cbn [fst fail_unprocessable record_failure set_dedup rollbacks ens set_core]; lia.
   - specialize (IH (rollback (ens c) (e_epoch e) s) e).
@@ -511,7 +511,7 @@ Proof.
   cbv zeta.
   destruct ((e_kind e =? 3) || negb (outer_opens (kc (ens c)) (e_state e))); [intros _ _; exact (proj_ens c)|].
   destruct (wrong_epoch (kc (ens c)) e).
-  - destruct (is_better (ens c) (e_epoch e) (e_ts e) (e_key e)).
+  - destruct (is_commit_kind e && is_better (ens c) (e_epoch e) (e_ts e) (e_key e)).
     + destruct (find_snap (e_epoch e) (queue (ens c))) as [s|]; [|intros _ _; exact (proj_ens c)].
       intros _ Hrb. exfalso. apply Hrb.
       pose proof (process_rb 1 (rollback (ens c) (e_epoch e) s) e) as H.
@@ -682,7 +682,7 @@ Proof.
        unfold commit_here; (destruct (negb (forallb _ (e_refs e))); [discriminate|]);
        (destruct (negb (e_auth e)); [discriminate|]); rewrite apply_commit_rk; discriminate.
   all: destruct (wrong_epoch (kc (ens c)) e); [|exact Hhere].
-  all: destruct (is_better (ens c) (e_epoch e) (e_ts e) (e_key e));
+  all: destruct (is_commit_kind e && is_better (ens c) (e_epoch e) (e_ts e) (e_key e));
        [|unfold late; destruct (dget (e_id e) (dedup (ens c))) as [d|]; [destruct (d_state d =? PS_COMMIT)|]; discriminate].
   all: destruct (find_snap (e_epoch e) (queue (ens c))) as [s|] eqn:Es; [|discriminate].
   - discriminate.
@@ -734,7 +734,7 @@ Proof.
   all: cbv zeta.
   all: destruct ((e_kind e =? 3) || negb (outer_opens (kc (ens c)) (e_state e))); [exact Hnd|].
   all: destruct (wrong_epoch (kc (ens c)) e); [|apply nodup_msgs_here; exact Hnd].
-  all: destruct (is_better (ens c) (e_epoch e) (e_ts e) (e_key e));
+  all: destruct (is_commit_kind e && is_better (ens c) (e_epoch e) (e_ts e) (e_key e));
        [|unfold late; destruct (dget (e_id e) (dedup (ens c))) as [d|]; [destruct (d_state d =? PS_COMMIT)|]; exact Hnd].
   all: destruct (find_snap (e_epoch e) (queue (ens c))) as [s|] eqn:Es; [|exact Hnd].
   - exact Hnd.
@@ -878,13 +878,20 @@ Qed.
 
 Definition tail (f : nat) (c : client) (e : event) : client * rk :=
   if wrong_epoch (kc c) e then
-    if is_better c (e_epoch e) (e_ts e) (e_key e) then
+    if is_commit_kind e && is_better c (e_epoch e) (e_ts e) (e_key e) then
       match find_snap (e_epoch e) (queue c), f with
       | Some s, S f' => process f' (rollback c (e_epoch e) s) e
       | _, _ => fail_unprocessable c e (k_rec_epoch (kc c))
       end
     else late c e (k_rec_epoch (kc c))
   else here c e (k_rec_epoch (kc c)).
+
+Lemma is_commit_kind_0 e : e_kind e = 0 -> is_commit_kind e = true.
+Proof. intros H. unfold is_commit_kind. rewrite H. reflexivity. Qed.
+Lemma is_commit_kind_1 e : e_kind e = 1 -> is_commit_kind e = false.
+Proof. intros H. unfold is_commit_kind. rewrite H. reflexivity. Qed.
+Lemma is_commit_kind_2 e : e_kind e = 2 -> is_commit_kind e = false.
+Proof. intros H. unfold is_commit_kind. rewrite H. reflexivity. Qed.
 
 Lemma gates f c e : blockedb c e = false -> e_kind e <> 3 -> has_secret (kc c) ->
   (exists c0 g ep, process f c e = (record_failure c0 (e_id e) g ep, RErr) /\ proj c0 = proj c) \/
@@ -954,6 +961,7 @@ Proof.
       { unfold wrong_epoch. destruct (N.eqb_spec (e_kind e) 1) as [E|_]; [contradiction|].
         rewrite Aep, Hep. destruct (N.eqb_spec (k_epoch (kc c)) (k_epoch (kc c) + 1)) as [E|_]; [lia|reflexivity]. }
       rewrite (is_better_new_snapshot _ e (retention c) (queue c) (kc c)); [|rewrite Hep; reflexivity|exact Hq].
+      rewrite andb_false_r.
       unfold late. rewrite dedup_put, dget_aset_same. cbn [d_state].
       change (PS_COMMIT =? PS_COMMIT) with true. cbv iota. cbn [fst].
       apply sync_fix. cbn [put_dedup set_dedup set_core kc]. rewrite Aep, Arec. reflexivity.
@@ -961,7 +969,7 @@ Qed.
 
 Lemma settled_late c e r :
   blockedb c e = false -> e_kind e <> 3 -> has_secret (kc c) ->
-  wrong_epoch (kc c) e = true -> is_better c (e_epoch e) (e_ts e) (e_key e) = false ->
+  wrong_epoch (kc c) e = true -> is_commit_kind e && is_better c (e_epoch e) (e_ts e) (e_key e) = false ->
   Settled e (fst (late c e r)).
 Proof.
   intros Hb K3 Hs Hw Hnb. unfold late.
@@ -1063,7 +1071,7 @@ Qed.
 
 (* one pass that does not take the rollback arm leaves a settled client *)
 Lemma step_settled f c e :
-  (wrong_epoch (kc (ens c)) e = true -> is_better (ens c) (e_epoch e) (e_ts e) (e_key e) = false) ->
+  (wrong_epoch (kc (ens c)) e = true -> is_commit_kind e && is_better (ens c) (e_epoch e) (e_ts e) (e_key e) = false) ->
   (wrong_epoch (kc (ens c)) e = false -> e_kind e <> 1 -> forall s, In s (queue c) -> sn_epoch s <> e_epoch e) ->
   Settled e (fst (process f c e)).
 Proof.
@@ -1094,7 +1102,7 @@ Lemma deliver_settled c e :
   (forall s, In s (queue c) -> sn_epoch s <> k_epoch (kc c)) -> Settled e (fst (deliver c e)).
 Proof.
   intros Hq. unfold deliver at 1.
-  destruct (wrong_epoch (kc (ens c)) e && is_better (ens c) (e_epoch e) (e_ts e) (e_key e)) eqn:WB.
+  destruct (wrong_epoch (kc (ens c)) e && (is_commit_kind e && is_better (ens c) (e_epoch e) (e_ts e) (e_key e))) eqn:WB.
   - apply andb_true_iff in WB. destruct WB as [Hw Hbt]. rewrite process_unfold.
     destruct (blockedb c e) eqn:Hb; [left; apply fixed_blocked; exact Hb|].
     destruct ((e_kind e =? 3) && (e_bad e <? 2)); [apply settled_rf|].
@@ -1107,7 +1115,7 @@ Proof.
     apply step_settled.
     + intros _. unfold is_better.
       change (queue (ens (rollback (ens c) (e_epoch e) s))) with (take_until (e_epoch e) (queue c)).
-      rewrite find_snap_none; [reflexivity|apply take_until_no].
+      rewrite find_snap_none; [apply andb_false_r|apply take_until_no].
     + intros _ _. change (queue (rollback (ens c) (e_epoch e) s)) with (take_until (e_epoch e) (queue c)). apply take_until_no.
   - apply step_settled.
     + intros Hw. rewrite Hw in WB. exact WB.
@@ -1336,6 +1344,7 @@ Section Fork.
     assert (Hfs : find_snap (e_epoch x) (queue c) = Some (snapm m)).
     { rewrite Hq, Hep. rewrite find_snap_app_none by exact Hq'. unfold find_snap. cbn [find snapm sn_epoch].
       rewrite N.eqb_refl. reflexivity. }
+    rewrite (is_commit_kind_0 x K0). cbn [andb].
     unfold is_better. rewrite Hfs. cbn [snapm sn_ts sn_key].
     destruct (N.eqb_spec (e_ts m) 0) as [E|_]; [contradiction|].
     destruct ((e_ts x <? e_ts m) || ((e_ts x =? e_ts m) && (e_key x <? e_key m))); [|reflexivity].
@@ -1732,7 +1741,7 @@ Proof.
   all: cbv zeta; pose proof (qwf_ens c H) as H1.
   all: destruct ((e_kind e =? 3) || negb (outer_opens (kc (ens c)) (e_state e))); [exact H1|].
   all: destruct (wrong_epoch (kc (ens c)) e); [|apply qwf_here; exact H1].
-  all: destruct (is_better (ens c) (e_epoch e) (e_ts e) (e_key e)); [|apply qwf_late; exact H1].
+  all: destruct (is_commit_kind e && is_better (ens c) (e_epoch e) (e_ts e) (e_key e)); [|apply qwf_late; exact H1].
   all: destruct (find_snap (e_epoch e) (queue (ens c))) as [s|] eqn:Es; [|exact H1].
   - exact H1.
   - apply IH. apply qwf_rollback; [exact H1|exact Es].
